@@ -220,6 +220,12 @@ case("C04", "left-join-limit-hang", "a LEFT (or RIGHT) hash join below LIMIT han
      {"outcome": "rows", "rows": [[1]]}, {"outcome": "deadlock", "deadlock_kind": "stuck_barrier", "parked_ops": ["HashJoin/exec"]},
      ["C01", "C03", "C06", "C08", "C15"], exec={"kind": "det", "policy": "fifo", "partitions": 2})
 
+case("C04", "distinct-aggregate-union-limit-hang", "LIMIT above a UNION ALL whose branch is a grouped aggregate with a DISTINCT aggregate function hangs with >= 2 partitions (both executors): same family as left-join-limit-hang - the pipelines cut short by the exhausted LIMIT never finalize, so the distinct aggregation's cross-partition barrier waits forever. Needs an executor-level repair (finalizing upstream operators when a downstream operator is exhausted)",
+     ["CREATE TEMP TABLE t0 (k INT, a BIGINT)", "INSERT INTO t0 VALUES (12, -2), (9, NULL), (3, NULL), (NULL, 349), (9, 2)"],
+     "SELECT 1 FROM t0 GROUP BY k HAVING count(DISTINCT a) >= 0 UNION ALL SELECT 1 FROM t0 LIMIT 1",
+     {"outcome": "rows", "rows": [[1]]}, {"outcome": "deadlock", "deadlock_kind": "stuck_barrier", "parked_ops": ["HashAggregate/exec", "Union/exec"]},
+     ["C01", "C02", "C03", "C07", "C08", "C09", "C15"], exec={"kind": "det", "policy": "fifo", "partitions": 2})
+
 case("C07", "grouping-function-argument-order", "GROUPING(args) ignores the order of its arguments and mishandles expression keys: the bitmask follows the position of the keys in the GROUP BY list instead of the argument order documented in docs/sql/query-syntax/group-by.md (rightmost argument = least significant bit)",
      ["CREATE TEMP TABLE g (k INT)", "INSERT INTO g VALUES (1)"],
      "SELECT (k % 2) AS z2, grouping((k % 2), k) AS z3 FROM g GROUP BY CUBE (k, (k % 2))",
